@@ -323,8 +323,8 @@ pub fn profile(prop: &str) -> Option<Profile> {
         "C17" => {
             let mut p = base("C17");
             p.ops.extend_from_slice(&[(Op::RawTrip, 40)]);
-            p.world_ok = raw_parts_world;
-            p.focus = vec![f(Op::RawTrip, 0, 0, 0, 0), f(Op::RawTrip, 0, 0, 0, 1)];
+            p.world_ok = any_world;
+            p.focus = vec![f(Op::RawTrip, 0, 0, 0, 0), f(Op::RawTrip, 0, 0, 0, 1), f(Op::RawTrip, 0, 0, 0, 2), f(Op::RawTrip, 0, 0, 0, 3)];
             p
         }
         "C18" => {
@@ -372,7 +372,7 @@ pub fn owned(prop: &str, v: &Violation) -> bool {
     match prop {
         "C01" => strict && content && matches!(v.op, Op::Put | Op::Take | Op::Clear | Op::Get | Op::Iter | Op::PushRun | Op::New | Op::DropVec | Op::MoveVec | Op::Nop),
         "C02" => strict && content && matches!(v.op, Op::Drain | Op::Splice),
-        "C03" => strict && (ledger || v.class == BadValue),
+        "C03" => strict && (ledger || v.class == BadValue || v.ownership),
         "C04" => v.op == Op::TypeProbe,
         "C05" => {
             matches!(v.class, MemEnv | LenGtCap | ObjectGuard | StorageLeak | BadValue | GarbageDrop)
